@@ -168,7 +168,9 @@ def write_evidence(ctx, mod, proof):
     if getattr(mod, "LEVEL", "proof") == "translation_validation":
         cov["programs"] = ctx.extra.get("programs", ctx.evaluations)
         cov["disagreements_checked"] = ctx.extra.get("disagreements_checked", 0)
-    cov.update(ctx.extra)
+    for k, v in ctx.extra.items():           # extras never replace a field the evidence schema defines
+        keep = k not in cov or (k in ("programs", "disagreements_checked") and isinstance(v, int))
+        cov[k if keep else "extra_" + k] = v
     ev = {
         "property_id": ctx.pid, "tier": ctx.tier, "seed": ctx.seed,
         "level": getattr(mod, "LEVEL", "proof"),
@@ -312,6 +314,13 @@ def main():
         seed = int(os.environ.get("VERIF_SEED", "0") or 0)
     except ValueError:
         seed = 0
+    if os.environ.get("PYTHONHASHSEED") is None:
+        # str-keyed dicts / sets of the code under test (the matching dict of bottleneck) iterate in an order that depends on
+        # the interpreter's hash seed, and what they return feeds later random draws of the harness: pin the hash seed to
+        # VERIF_SEED so that one seed means one run (the streams that are ABOUT hash order start their own interpreters
+        # with explicit hash seeds)
+        os.environ["PYTHONHASHSEED"] = str(abs(seed) % 4294967296)
+        os.execv(sys.executable, [sys.executable] + sys.argv)
     try:
         rc = run_check(a.pid.upper(), a.tier, seed, a.replay)
     except subprocess.TimeoutExpired as e:
